@@ -186,7 +186,7 @@ var rectLineApis = []string{"RectClipLinesPaths64", "RectClipLinesPath64", "Rect
 func driveRect(r *rand.Rand, w *writer, n int) {
 	for i := 0; i < n; i++ {
 		paths := genClosedSet(r, r.Intn(nClosedFams))
-		e := &RectEv{Ev: "RectClip", Chk: []string{"C06"}, Api: rectApis[r.Intn(3)], Rect: genRect(r, paths), Paths: paths}
+		e := &RectEv{Ev: "RectClip", Chk: chkFor("C06"), Api: rectApis[r.Intn(3)], Rect: genRect(r, paths), Paths: paths}
 		execRect(r, e)
 		w.emit(e)
 	}
@@ -225,7 +225,7 @@ func driveRectLines(r *rand.Rand, w *writer, n int) {
 		if r.Intn(3) == 0 { // rectangle sides on the 8-grid: lines run along edges and touch corners
 			rc = [4]int64{int64(r.Intn(8)-8) * 8, int64(r.Intn(8)-8) * 8, int64(1+r.Intn(8)) * 8, int64(1+r.Intn(8)) * 8}
 		}
-		e := &RectEv{Ev: "RectClipLines", Chk: []string{"C11"}, Api: rectLineApis[r.Intn(3)], Rect: rc, Paths: paths}
+		e := &RectEv{Ev: "RectClipLines", Chk: chkFor("C11"), Api: rectLineApis[r.Intn(3)], Rect: rc, Paths: paths}
 		execRect(r, e)
 		w.emit(e)
 	}
